@@ -329,6 +329,22 @@ func (g *Gen) who(owner []byte) []byte {
 	return g.actor()
 }
 
+// whoRel is `who`, but a wrong sender is, half of the time, one of the parties related to the resource
+// (a holder of an allocation, the serving node, the plan's provider ...): the near-owners an authorisation
+// slip is most likely to let through.
+func (g *Gen) whoRel(owner []byte, related ...[]byte) []byte {
+	var rel [][]byte
+	for _, r := range related {
+		if len(r) > 0 && string(r) != string(owner) {
+			rel = append(rel, r)
+		}
+	}
+	if owner != nil && len(rel) > 0 && g.chance(0.25+g.pWrong()/2) {
+		return rel[g.pick(len(rel))]
+	}
+	return g.who(owner)
+}
+
 func (g *Gen) pWrong() float64 {
 	if g.Profile == "authz" {
 		return 0.5
@@ -545,6 +561,12 @@ func (g *Gen) Tx(v *view) error {
 	if len(v.sess) == 0 {
 		weights[14], weights[15] = 1, 1
 	}
+	for _, x := range v.subs {
+		if len(x.allocs) > 1 {
+			weights[11] += 3 // a shared subscription: cancellations by its holders are the interesting ones
+			break
+		}
+	}
 	if activeSess == 0 && len(v.sess) > 0 {
 		weights[15] = 2
 	}
@@ -697,7 +719,7 @@ func (g *Gen) Tx(v *view) error {
 		if g.chance(0.7) {
 			dur = []int64{3600e9, 7200e9, 86400e9}[g.pick(3)]
 		}
-		gb := []int64{1, 2, 10, 100, 0, -1, 9223372036}[g.pick(7)]
+		gb := []int64{1, 2, 10, 100, 0, -1, 9223372036, 9223372037, 18446744074, 9223372036854775807}[g.pick(10)]
 		if g.chance(0.7) {
 			gb = 1 + g.R.Int63n(20)
 		}
@@ -741,12 +763,22 @@ func (g *Gen) Tx(v *view) error {
 			id = v.subs[g.pick(len(v.subs))].id
 		}
 		var owner []byte
+		var related [][]byte
 		for _, x := range v.subs {
 			if x.id == id {
 				owner = x.addr
+				related = append(related, x.node)
+				for _, al := range x.allocs {
+					related = append(related, al.addr)
+				}
+				for _, p := range v.plans {
+					if p.id == x.plan {
+						related = append(related, p.prov)
+					}
+				}
 			}
 		}
-		return g.line("tx subCancel from=%s id=%d%s", hexs(g.who(owner)), id, g.addrExtra("from"))
+		return g.line("tx subCancel from=%s id=%d%s", hexs(g.whoRel(owner, related...)), id, g.addrExtra("from"))
 	case "subAllocate":
 		id := g.someID(subMax)
 		var planSubs []subV
@@ -807,7 +839,15 @@ func (g *Gen) Tx(v *view) error {
 				}
 			}
 		}
-		return g.line("tx subAllocate from=%s id=%d to=%s bytes=%s%s%s", hexs(g.who(owner)), id, hexs(to), bytes, g.addrExtra("from"), g.addrExtra("to"))
+		var holders [][]byte
+		for _, x := range v.subs {
+			if x.id == id {
+				for _, al := range x.allocs {
+					holders = append(holders, al.addr)
+				}
+			}
+		}
+		return g.line("tx subAllocate from=%s id=%d to=%s bytes=%s%s%s", hexs(g.whoRel(owner, holders...)), id, hexs(to), bytes, g.addrExtra("from"), g.addrExtra("to"))
 	case "sessStart":
 		id := g.someID(subMax)
 		var live []subV
@@ -931,7 +971,7 @@ func (g *Gen) Tx(v *view) error {
 				}
 			}
 		}
-		return g.line("tx sessUpdate from=%s id=%d up=%s down=%s dur=%d sig=%s%s", hexs(g.who(node)), id, up, down, dur, sig, g.addrExtra("from"))
+		return g.line("tx sessUpdate from=%s id=%d up=%s down=%s dur=%d sig=%s%s", hexs(g.whoRel(node, acc)), id, up, down, dur, sig, g.addrExtra("from"))
 	case "sessEnd":
 		id := g.someID(sessMax)
 		if len(v.sess) > 0 && g.chance(0.9) {
@@ -941,12 +981,19 @@ func (g *Gen) Tx(v *view) error {
 			}
 		}
 		var owner []byte
+		var related [][]byte
 		for _, x := range v.sess {
 			if x.id == id {
 				owner = x.addr
+				related = append(related, x.node)
+				for _, sb := range v.subs {
+					if sb.id == x.sub {
+						related = append(related, sb.addr)
+					}
+				}
 			}
 		}
-		return g.line("tx sessEnd from=%s id=%d rating=%d%s", hexs(g.who(owner)), id, []int{0, 5, 10, 1, 2, 3, 4, 6, 7, 8, 9, 10, 0, 5, 11}[g.pick(15)], g.addrExtra("from"))
+		return g.line("tx sessEnd from=%s id=%d rating=%d%s", hexs(g.whoRel(owner, related...)), id, []int{0, 5, 10, 1, 2, 3, 4, 6, 7, 8, 9, 10, 0, 5, 11}[g.pick(15)], g.addrExtra("from"))
 	case "swap":
 		wp := s.App.SwapKeeper.GetParams(ctx)
 		approver, _ := sdk.AccAddressFromBech32(wp.ApproveBy)
